@@ -266,6 +266,37 @@ func buildApplyCases(p *Program, tier string) ([]*Unit, []UnitError) {
 		}
 		units = append(units, u)
 	}
+
+	// a typed nil pointer (an absent optional child of pointer type: FuncDecl.Body, Field.Tag, ...) is
+	// converted to an untyped nil before the cursor is set: callbacks see Node() == nil, as with astutil
+	if wantUnit("apply/typed-nil") {
+		topts := &UnitOpts{NameSuffix: "/typed-nil", Trace: true, ExtraRequires: []string{"typeof(n) != 0 && ref(n) == 0"}, SkipEnsures: map[string]bool{"unvisited_kept": true}}
+		topts.AtExit = func(ex *Exec, frm *frame, g string, st *State, res []Val) {
+			n := 0
+			for i := range ex.trace {
+				ev := &ex.trace[i]
+				if ev.Kind != "call" || ev.Depth != 0 {
+					continue
+				}
+				if !strings.HasSuffix(ev.Callee, ".callback.pre") && !strings.HasSuffix(ev.Callee, ".callback.post") {
+					continue
+				}
+				n++
+				env := &SpecEnv{ex: ex, vars: map[string]Val{}, cur: ev.St, old: frm.entry, pkg: frm.fn.Pkg.Pkg}
+				env.vars["a"] = frm.params["a"]
+				ex.obligeSpec(env, fmt.Sprintf("apply/typed-nil#cursor:node_is_untyped_nil@%d", n), "schema", ev.Guard, "a.cursor.node == nil", nil)
+			}
+			o := ex.oblige("apply/typed-nil#cursor:callbacks_seen", "frame", "true", map[bool]string{true: "true", false: "false"}[n >= 1], fmt.Sprintf("%d callback call(s) on the typed-nil path", n), "")
+			o.Guard = "true"
+		}
+		u, err := p.verifyFunc(key, topts)
+		if err != nil {
+			errs = append(errs, UnitError{"apply/typed-nil", err.Error()})
+		} else {
+			units = append(units, u)
+		}
+	}
+
 	return units, errs
 }
 
